@@ -500,7 +500,7 @@ theorem link_step (s s' : St) (e : Ev) (ms : C04St) (hl : LinkA s ms) (ha : AllR
         · cases hs
       · cases hs
     · cases hs
-  | quiesce p r =>
+  | quiesce p r l =>
     simp only [step] at hs
     split at hs
     · simp at hs; subst hs; exact ⟨ms, rfl, hl⟩
